@@ -112,6 +112,18 @@ CallMutate(x, y) ==
              /\ bind' = [bind EXCEPT ![y] = bind[x]]
   /\ hist' = Append(hist, [op |-> "call", x |-> x, y |-> y])
 
+\* x loses its last element (arrays: x = x[0:len-1], a slice of the same backing store when it stays large; maps: del of
+\* the last key - a large map stays in the large representation however few pairs remain)
+Shrink(x) ==
+  /\ bind[x].len > 0
+  /\ val' = [val EXCEPT ![x] = SubSeq(@, 1, Len(@) - 1)]
+  /\ IF bind[x].len - 1 <= Small
+     THEN /\ stores' = Append(stores, NewStore(SubSeq(Read(bind[x]), 1, bind[x].len - 1)))
+          /\ bind' = [bind EXCEPT ![x] = [id |-> Len(stores) + 1, len |-> bind[x].len - 1]]
+     ELSE /\ bind' = [bind EXCEPT ![x].len = @ - 1]        \* same store, spare capacity appears
+          /\ UNCHANGED stores
+  /\ hist' = Append(hist, [op |-> "shrink", x |-> x])
+
 Emit == EmitOn => EmitLine(ToJson([h |-> hist', val |-> val']))
 
 Next ==
@@ -121,6 +133,7 @@ Next ==
      \/ \E x, y \in Vars : AppendTo(x, y)
      \/ \E x, z, y \in Vars : Concat(x, z, y)
      \/ \E x, y \in Vars : CallMutate(x, y)
+     \/ \E x \in Vars : Shrink(x)
   /\ Emit
 
 Spec == Init /\ [][Next]_vars
